@@ -19,19 +19,36 @@ LEVEL_TEXT = ("Coq theorems over an executable model of meiosis and of the seven
               "names follow the repeat pattern (as a permutation in general, in order while names fit the 7-digit zero-fill: _partial + _refuted), counters advance "
               "exactly, DH progeny are homozygous, marker metadata except vrnt_hapalt/vrnt_hapref is handed over (_partial + _refuted); the line-by-line "
               "segment-copy loop equals the per-marker reading. The model is tied to the code by evaluating it inside Coq on generated inputs with scripted draws "
-              "against the outputs of all seven protocols and of mat_*/dense_* (exact equality of every output array)")
+              "against the outputs of all seven protocols and of mat_*/dense_* (exact equality of every output array). Independently of the sampled "
+              "cases, Gen/C01_Kernel.v is regenerated from the source on every run (the crossover test rnd < xoprob, the index expressions, "
+              "initialisations and updates of the segment-copy loop, mat_dh/mat_mate/dense_dh/dense_cross, the statements of each protocol's mate() from "
+              "the parent-index expansion to the constructor call incl. names, labels and counters, the metadata hand-over, nparent) and proved equal "
+              "to the hand model (Proofs/C01_Kernel.v); the kernel theorems (crossover only where xoprob > 0, loop = mosaic, MOSAIC/DH/METADATA about "
+              "the regenerated mate_k) and a two-call session theorem (counters run on, labels never reused) are stated about those definitions")
 LEVEL_NOTE = ("trusted: Coq kernel + vm_compute; numpy slicing/repeat/stack/lexsort/unique semantics are modelled by hand and tied to the code only "
               "differentially; uniforms are scripted on the grid k/2^10 (a numpy Generator subclass), so the generator itself is outside the model; "
               "negative (wrap-around) parent indices, negative counts and progeny counters below 0 are outside the modelled domain; "
-              "object identity/aliasing of the metadata arrays is checked by the predicate only")
+              "aliasing is checked by the predicate only (progeny matrix/labels are new writable memory, not shared with the parents, the "
+              "arguments or between the two chromosome copies; writing into them does not reach the inputs); the marker-metadata arrays ARE shared "
+              "by reference between parents and progeny (library behaviour, recorded in the evidence histogram, not claimed either way); "
+              "the kernel translator (harness/translate/c01_kernel.py) is trusted and fail-closed: a statement outside its fragment is a broken "
+              "correspondence; the argument checks at the head of mate() are modelled by hand (expand_count), not regenerated; "
+              "genotype arrays with a number of phases other than 2 are outside the domain (mat_meiosis reads phases 0 and 1 only)")
 TECHNIQUE = "Coq proof over an executable model (refinement loop = per-marker mosaic, pedigree invariant); in-Coq vm_compute correspondence with scripted draws; provenance-tracing predicate"
 RULE = ("case = (protocol | mat_/dense_ function, genotype array, xoprob, xconfig, counts, nself, counters, metadata, scripted uniform pool); one PRNG; "
         "taxa 1..8, markers 1..24 in 1..3 chromosomes, int8 alleles incl. -128/127, xoprob from {0,2^-10,1/4,1/2,1-2^-10,1} and random k/2^10, "
         "draws biased to the comparison boundary (u = p and u = p - 2^-10), crosses 0..4 with selfs and repeated parents, scalar and array counts incl. 0, "
         "nself 0..3; plus predicate-only large cases (real PCG64, founder copies coded 2f+c+1, output run-length coded: more than 2^22 uniforms in one mat_meiosis/dense_meiosis call "
         "in the quick tier for a non-DH and a DH protocol, every protocol and 2^16..2^20 in thorough); plus provenance cases with real PCG64 draws and real-valued probabilities (small ones also evaluated in Coq on the exact rationals of the binary64 draws) and exhaustive crossover patterns; non-trivial = two founders of a cross "
-        "row differ at a marker and at least one scripted crossover fires; distinct by SHA-256 of the case")
-TRUSTED = ["rngscript.Scripted subclass handing out the case's uniform pool in request order (shapes and ranges requested are logged and compared)",
+        "row differ at a marker and at least one scripted crossover fires; distinct by SHA-256 of the case; "
+        "plus: an entry-point audit by introspection of the anchored modules (every public class/function/parameter is driven or listed in SKIPPED; a new one "
+        "fails the check); object lifecycle (parents through deepcopy/copy/select_taxa, protocol configured through the property setters with a decoy generator, "
+        "miscout and extra keywords passed, sessions of 2-3 mate() calls on ONE protocol and ONE pgmat object with matrix/xoprob replaced in place or through "
+        "setters, counters running on or set, generator replaced or continued); binary64 probabilities 2^-40, 2^-53, 1e-12, 2^-1022, 5e-324 and -0.0 next to "
+        "draws of exactly 0 (shipped to Coq as exact rationals); parent indices > 127 and > 255, nmating/nprogeny/their product > 127 and > 255, "
+        "crossover positions > 255; aliasing observables and a write-into-the-result test after every call")
+TRUSTED = ["harness/translate/c01_kernel.py (ast -> Gallina for the C01 kernel; fail closed) and Model/C01_Kit.v (loop_n, rangeZ, name_of, seg_loop: the vocabulary the regenerated definitions are written in)",
+           "rngscript.Scripted subclass handing out the case's uniform pool in request order (shapes and ranges requested are logged and compared)",
            "integer codes of strings/floats used to compare metadata arrays are injective (bytes of the value)"]
 SEARCH_MAX = 1600
 ASSUMPTIONS = ["parent indices in xconfig are 0 <= i (an index >= ntaxa is modelled as the IndexError it raises; negative numpy wrap-around indices are not modelled)",
@@ -143,13 +160,24 @@ def _meta(rng, p, starts, hap):
     m["taxa"] = rng.random() < 0.5
     return m
 
+TINY = [2.0 ** -40, 5e-324, 2.0 ** -1022, 1e-12, 2.0 ** -53]
+def _tiny_xoprob(rng, xoprob):
+    """the same probabilities as binary64 values, with 2^-10 replaced by tiny positive numbers (2^-40, the smallest denormal, ...)
+    and exact zeros sometimes written -0.0: a tolerance in place of the exact comparison `rnd < xoprob` changes the outcome"""
+    return [(rng.choice([0.0, 0.0, -0.0]) if x == 0 else (rng.choice(TINY) if x == 1 else x / DEN)) for x in xoprob]
+
+def _xo_num(case):
+    """crossover probabilities as exact numerators over DEN (comparable with the scripted pool)"""
+    if "xoprob_f" in case: return [Fraction(float(x)) * DEN for x in case["xoprob_f"]]
+    return case["xoprob"]
+
 def _proto_case(rng, proto, tier, opts=None):
     o = opts or {}
     big = tier == "thorough"
     n = o.get("n") or rng.choice([1, 2, 2, 3, 3, 4, 5, 6, 8])
     p = o.get("p") or (rng.choice([1, 2, 3, 4, 5, 6, 8, 10, 16, 24]) if big else rng.choice([1, 2, 3, 4, 5, 5, 6, 7, 8, 12]))
     nchr = rng.randint(1, 3)
-    xoprob, starts = _xoprob(rng, p, nchr, rng.choice(["map", "map", "set", "set", "zeros", "rand"]))
+    xoprob, starts = _xoprob(rng, p, nchr, o.get("xomode") or rng.choice(["map", "map", "set", "set", "zeros", "rand"]))
     gmode = rng.choice(["binary", "distinct", "distinct2", "distinct2", "extreme", "random", "same"]) if "gmode" not in o else o["gmode"]
     geno = _geno(rng, n, p, gmode)
     npar = NPAR[proto]
@@ -157,15 +185,17 @@ def _proto_case(rng, proto, tier, opts=None):
     xc = []
     for _ in range(ncross):
         k = rng.random()
-        if k < 0.15: a = rng.randrange(n); row = [a] * npar                       # every parent the same individual
-        elif k < 0.35 and npar >= 2: row = [rng.randrange(n) for _ in range(npar)]; row[rng.randrange(1, npar)] = row[0]
-        else: row = [rng.randrange(n) for _ in range(npar)]
+        lo = o.get("parent_lo", 0)                                                # wide cases: parents from the top of a long list
+        if k < 0.15: a = rng.randrange(lo, n); row = [a] * npar                   # every parent the same individual
+        elif k < 0.35 and npar >= 2: row = [rng.randrange(lo, n) for _ in range(npar)]; row[rng.randrange(1, npar)] = row[0]
+        else: row = [rng.randrange(lo, n) for _ in range(npar)]
         xc.append(row)
-    if xc and rng.random() < 0.2: xc.append(list(xc[0])); ncross += 1             # a repeated cross
+    if xc and rng.random() < 0.2 and "counts" not in o: xc.append(list(xc[0])); ncross += 1             # a repeated cross
     def cnt():
         if rng.random() < 0.5: return rng.choice([0, 1, 1, 2, 2, 3])
         return [rng.choice([0, 1, 1, 2, 2, 3]) for _ in range(ncross)]
     nmating, nprogeny = cnt(), cnt()
+    if "counts" in o: nmating, nprogeny = o["counts"]
     nself = o.get("nself", rng.choice([0, 0, 0, 1, 1, 2, 3]))
     pc = rng.choice([0, 0, 1, 7, 42, 123456, 9999990 - rng.randint(0, 50)]); fc = rng.choice([0, 0, 1, 5, -3, 1000, 2 ** 40])
     nm = [nmating] * ncross if isinstance(nmating, int) else nmating
@@ -174,6 +204,15 @@ def _proto_case(rng, proto, tier, opts=None):
     case = {"kind": "proto", "proto": proto, "geno": geno, "xoprob": xoprob, "xconfig": xc, "nmating": nmating, "nprogeny": nprogeny,
             "nself": nself, "pc": pc, "fc": fc, "meta": _meta(rng, p, set(starts), hap)}
     if rng.random() < 0.15: case["np_scalar"] = True          # Integral counts given as numpy.int64 scalars
+    if rng.random() < 0.2 and not o.get("plain"):
+        if 1 not in xoprob and p > 0: xoprob[rng.randrange(p)] = 1
+        case["xoprob_f"] = _tiny_xoprob(rng, xoprob)
+    if not o.get("plain"):
+        # lifecycle: how the objects are obtained, optional arguments
+        case["meta"]["route"] = rng.choice(["ctor", "ctor", "deepcopy", "copy", "select"])
+        case["prot_route"] = rng.choice(["ctor", "ctor", "setters"])
+        if rng.random() < 0.2: case["miscout"] = True
+        if rng.random() < 0.1: case["kw"] = True
     bad = o.get("bad")
     if bad == "index" and ncross:
         i = rng.randrange(ncross); xc[i][rng.randrange(npar)] = n + rng.randint(0, 2)
@@ -184,6 +223,48 @@ def _proto_case(rng, proto, tier, opts=None):
         case["nmating"] = nm + [1]
     case["pool"] = _pool(rng, xoprob, _need_rows(proto, nm, np_, nself), 2 * p + 3, "none" if rng.random() < 0.05 else "mix")
     return case
+
+WIDE_COUNTS = [(1, 260), (260, 1), (16, 17), (2, 130), (130, 2)]      # (nmating, nprogeny): each count and the product beyond 127 / 255
+def _wide_case(rng, proto, kind, variant=0):
+    """more founders, progeny or markers than a narrow integer type can count (index arrays cast to int8/uint8, narrow counters)"""
+    if kind == "taxa":          # parent indices > 127 / > 255
+        n = [130, 300, 200, 260][variant % 4]
+        return _proto_case(rng, proto, "quick", {"n": n, "p": rng.choice([2, 3]), "gmode": "random", "ncross": rng.choice([1, 2, 3]),
+                                                 "parent_lo": rng.choice([128, n - 4]) if n < 257 else rng.choice([256, n - 4]), "nself": rng.choice([0, 1])})
+    if kind == "progeny":       # more than 255 progeny from one cross
+        a, b = WIDE_COUNTS[variant % len(WIDE_COUNTS)]
+        return _proto_case(rng, proto, "quick", {"n": rng.choice([2, 4]), "p": 2, "gmode": "distinct2", "ncross": 1, "counts": (a, b), "nself": 0,
+                                                 "xomode": "set"})
+    # markers: crossover positions beyond 255
+    return _proto_case(rng, proto, "quick", {"n": rng.choice([2, 3]), "p": rng.choice([260, 300]), "gmode": "binary", "ncross": 1,
+                                             "counts": (1, rng.choice([1, 2])), "nself": rng.choice([0, 1]), "xomode": "zeros"})
+
+def _session_case(rng, proto):
+    """one protocol object and one pgmat object used for several mate() calls; between the calls the matrix and the crossover
+    probabilities are replaced (in place or through the setters), counters run on (or are set through their setters): every call
+    must depend on the state at that call only"""
+    n = rng.choice([2, 3, 4, 5]); p = rng.choice([2, 3, 4, 6])
+    steps = []; pc = rng.choice([0, 3, 1000]); fc = rng.choice([0, 2, 50])
+    for k in range(rng.choice([2, 2, 3])):
+        c = _proto_case(rng, proto, "quick", {"n": n, "p": p, "plain": True, "ncross": rng.choice([1, 1, 2, 3]),
+                                              "gmode": rng.choice(["binary", "distinct", "distinct2", "random"])})
+        c["meta"]["vrnt_hapalt"] = None; c["meta"]["vrnt_hapref"] = None
+        if k:
+            c["meta"] = steps[0]["meta"]
+            c["update"] = {"mat": rng.choice(["inplace", "setter", "keep"]), "xo": rng.choice(["inplace", "setter", "keep"]),
+                           "counters": rng.choice(["run_on", "run_on", "setters"]), "rng": rng.choice(["setter", "keep"])}
+            if c["update"]["mat"] == "keep": c["geno"] = steps[-1]["geno"]
+            if c["update"]["xo"] == "keep":
+                c["xoprob"] = steps[-1]["xoprob"]
+                nm, np_ = _counts(c)
+                c["pool"] = _pool(rng, c["xoprob"], _need_rows(proto, nm, np_, c["nself"]), 2 * p + 3, "mix")
+            if c["update"]["counters"] == "setters": pc = rng.choice([0, 7, 500]); fc = rng.choice([0, 9])
+        c["pc"], c["fc"] = pc, fc
+        nm, np_ = _counts(c)
+        N = sum(a * b for a, b in zip(nm, np_))
+        pc += N; fc += len(c["xconfig"])
+        steps.append(c)
+    return {"kind": "session", "proto": proto, "steps": steps}
 
 def _width_case(rng, proto):
     """names crossing the 7-digit zero-fill width inside one family (known finding F_NAME)"""
@@ -202,10 +283,26 @@ def _util_case(rng, module, fn, tier):
     geno = _geno(rng, n, p, gm)
     k = rng.choice([0, 1, 2, 3, 5, 8])
     c = {"kind": "util", "module": module, "fn": fn, "geno": geno, "xoprob": xoprob, "sel": [rng.randrange(n) for _ in range(k)]}
+    if rng.random() < 0.2:
+        if 1 not in xoprob: xoprob[rng.randrange(p)] = 1
+        c["xoprob_f"] = _tiny_xoprob(rng, xoprob)
     rows = k
     if fn == "mate":
         n2 = rng.choice([1, 2, 3, 5])
         c["geno2"] = _geno(rng, n2, p, gm); c["sel2"] = [rng.randrange(n2) for _ in range(k)]; rows = 2 * k
+    c["pool"] = _pool(rng, xoprob, rows, 3, "mix")
+    return c
+
+def _wide_util_case(rng, module, fn):
+    """selection indices > 127 / > 255 and crossover positions > 255"""
+    n = rng.choice([200, 300]); p = rng.choice([2, 3, 280])
+    if p > 3: n = 3
+    xoprob, _ = _xoprob(rng, p, 2, "zeros" if p > 3 else "set")
+    geno = _geno(rng, n, p, "random"); k = rng.choice([2, 3])
+    c = {"kind": "util", "module": module, "fn": fn, "geno": geno, "xoprob": xoprob, "sel": [rng.randrange(max(0, n - 5), n) for _ in range(k)]}
+    rows = k
+    if fn == "mate":
+        c["geno2"] = _geno(rng, n, p, "random"); c["sel2"] = [rng.randrange(max(0, n - 5), n) for _ in range(k)]; rows = 2 * k
     c["pool"] = _pool(rng, xoprob, rows, 3, "mix")
     return c
 
@@ -273,7 +370,7 @@ def _big_cases(rng, tier):
     return out
 
 def gen_cases(rng, tier):
-    cases = []
+    cases = [{"kind": "audit"}]
     quick = tier == "quick"
     nproto = 150 if quick else 3300
     for proto in PROTOS:
@@ -285,10 +382,18 @@ def gen_cases(rng, tier):
         cases.append(_width_case(rng, proto))
         for _ in range(12 if quick else 150):
             cases.append(_real_case(rng, proto))
+        for rep_ in range(1 if quick else 6):
+            for v in range(2 if quick else 4): cases.append(_wide_case(rng, proto, "taxa", v))
+            for v in range(len(WIDE_COUNTS)): cases.append(_wide_case(rng, proto, "progeny", v))
+            cases.append(_wide_case(rng, proto, "markers"))
+        for _ in range(12 if quick else 200):
+            cases.append(_session_case(rng, proto))
     for module in ("mat", "dense"):
         for fn in ("meiosis", "dh", "mate"):
             for _ in range(45 if quick else 900):
                 cases.append(_util_case(rng, module, fn, tier))
+            for _ in range(2 if quick else 20):
+                cases.append(_wide_util_case(rng, module, fn))
         for m in (range(1, 6) if quick else range(1, 9)):
             cases.append(_sweep_case(module, m))
     cases += _big_cases(rng, tier)                # last: they are the slow ones
@@ -330,15 +435,40 @@ def _build_pgmat(case):
         g.group_vrnt()
         if not numpy.array_equal(g.mat, geno):
             raise RuntimeError("harness: group_vrnt reordered the generated matrix")
+    # lifecycle: the parents may come out of the library's own copy / selection routes
+    route = m.get("route", "ctor")
+    if route == "deepcopy":
+        import copy; g = copy.deepcopy(g)
+    elif route == "copy":
+        import copy; g = copy.copy(g)
+    elif route == "select":
+        g = g.select_taxa(numpy.arange(n))
+    if route != "ctor" and not numpy.array_equal(g.mat, geno):
+        raise RuntimeError("harness: route %s changed the generated matrix" % route)
     return g
 
 PG_FIELDS = ["mat", "taxa", "taxa_grp"] + META_KEYS
 
-def _run_proto(case):
+def _shares(a, b):
+    if a is None or b is None: return False
+    a, b = numpy.asarray(a), numpy.asarray(b)
+    return bool(a.size and b.size and numpy.shares_memory(a, b))
+
+def _make_prot(case, cls, rng):
+    """the protocol object: through the constructor, or built with defaults (and a decoy generator) and configured through the
+    property setters; the decoy must never be asked for a draw"""
+    if case.get("prot_route") == "setters":
+        decoy = Pool([])
+        prot = cls(rng=decoy)
+        prot.progeny_counter = case["pc"]; prot.family_counter = case["fc"]; prot.rng = rng
+        return prot, decoy
+    return cls(progeny_counter=case["pc"], family_counter=case["fc"], rng=rng), None
+
+def _run_proto(case, shared=None):
     import importlib
     proto = case["proto"]
     cls = getattr(importlib.import_module("pybrops.breed.prot.mate." + proto), proto)
-    g = _build_pgmat(case)
+    g = _build_pgmat(case) if shared is None else shared["g"]
     before = {k: _snap(getattr(g, k)) for k in PG_FIELDS}
     meta_in = {k: _tolist(getattr(g, k)) for k in META_KEYS}
     meta_in_dt = {k: (None if getattr(g, k) is None else str(numpy.asarray(getattr(g, k)).dtype)) for k in META_KEYS}
@@ -350,18 +480,26 @@ def _run_proto(case):
         if isinstance(nm, int): nm = numpy.int64(nm)
         if isinstance(np_, int): np_ = numpy.int64(np_)
     args_before = (_snap(xc), _snap(nm) if not isinstance(nm, int) else None, _snap(np_) if not isinstance(np_, int) else None)
-    rng = Real(case["real_rng"], keep=not case.get("big")) if case.get("real_rng") is not None else Pool(case["pool"])
-    prot = cls(progeny_counter=case["pc"], family_counter=case["fc"], rng=rng)
+    if shared is None:
+        rng = Real(case["real_rng"], keep=not case.get("big")) if case.get("real_rng") is not None else Pool(case["pool"])
+        prot, decoy = _make_prot(case, cls, rng)
+    else:
+        rng, prot, decoy = shared["rng"], shared["prot"], shared.get("decoy")
+    nshapes = len(rng.shapes)
     out = {"meta_in": meta_in, "meta_in_dtype": meta_in_dt}
+    extra = {}
+    if case.get("miscout"): extra["miscout"] = {}
+    if case.get("kw"): extra["verif_dummy_keyword"] = 1
     try:
-        res = prot.mate(g, xc, nm, np_, nself=case["nself"])
+        res = prot.mate(g, xc, nm, np_, nself=case["nself"], **extra)
     except ScriptExhausted:
         raise
     except Exception as e:
         out["error"] = type(e).__name__; out["msg"] = str(e)[:200]
         res = None
     out["pc"] = int(prot.progeny_counter); out["fc"] = int(prot.family_counter)
-    out["shapes"] = rng.shapes; out["ranges_ok"] = all(r == [0.0, 1.0] for r in rng.ranges)
+    out["shapes"] = rng.shapes[nshapes:]; out["ranges_ok"] = all(r == [0.0, 1.0] for r in rng.ranges[nshapes:])
+    out["decoy_used"] = bool(decoy is not None and decoy.shapes)
     out["unchanged"] = [k for k in PG_FIELDS if _snap(getattr(g, k)) != before[k]]
     out["args_unchanged"] = (_snap(xc), _snap(nm) if not isinstance(nm, int) else None, _snap(np_) if not isinstance(np_, int) else None) == args_before
     if isinstance(rng, Real) and not case.get("big"): out["drawn"] = rng.drawn
@@ -379,6 +517,75 @@ def _run_proto(case):
             out[k] = _tolist(getattr(res, k))
         out["meta"] = {k: _tolist(getattr(res, k)) for k in META_KEYS}
         out["meta_dtype"] = {k: (None if getattr(res, k) is None else str(numpy.asarray(getattr(res, k)).dtype)) for k in META_KEYS}
+        # aliasing: the progeny arrays are new memory; writing into them must not reach the parents or the arguments
+        al = {"mat_in": _shares(res.mat, g.mat), "phases": bool(res.mat.shape[0] >= 2 and _shares(res.mat[0], res.mat[1])),
+              "readonly": not res.mat.flags.writeable,
+              "args": any(_shares(getattr(res, k), a) for k in ("mat", "taxa_grp", "taxa_grp_name", "taxa_grp_stix", "taxa_grp_spix", "taxa_grp_len")
+                          for a in (xc, nm, np_) if not isinstance(a, (int, numpy.integer))),
+              "meta_shared": sorted(k for k in META_KEYS if _shares(getattr(res, k), getattr(g, k)))}
+        b2 = {k: _snap(getattr(g, k)) for k in ("mat", "taxa", "taxa_grp")}
+        try:
+            if res.mat.flags.writeable and res.mat.size: res.mat += 1
+            if res.taxa_grp is not None and res.taxa_grp.size: res.taxa_grp += 1
+            if res.taxa is not None and res.taxa.size: res.taxa[:] = "overwritten"
+        except Exception as e:
+            al["write_error"] = type(e).__name__
+        al["reached"] = [k for k in b2 if _snap(getattr(g, k)) != b2[k]]
+        if (_snap(xc), _snap(nm) if not isinstance(nm, int) else None, _snap(np_) if not isinstance(np_, int) else None) != args_before:
+            al["reached"].append("arguments")
+        out["alias"] = al
+    return out
+
+def _run_session(case):
+    """several mate() calls on ONE protocol object and ONE pgmat object with updates in between"""
+    import importlib
+    proto = case["proto"]; steps = case["steps"]
+    cls = getattr(importlib.import_module("pybrops.breed.prot.mate." + proto), proto)
+    g = _build_pgmat(steps[0])
+    rng = Pool(steps[0]["pool"])
+    prot, decoy = _make_prot(steps[0], cls, rng)
+    sh = {"g": g, "rng": rng, "prot": prot, "decoy": decoy}
+    outs = []
+    for k, st in enumerate(steps):
+        if k:
+            up = st["update"]
+            geno = numpy.array(st["geno"], dtype="int8"); xo = numpy.array(st["xoprob"], dtype=float) / DEN
+            if up["mat"] == "inplace": g.mat[...] = geno
+            elif up["mat"] == "setter": g.mat = geno
+            if up["xo"] == "inplace": g.vrnt_xoprob[...] = xo
+            elif up["xo"] == "setter": g.vrnt_xoprob = xo
+            if up["counters"] == "setters": prot.progeny_counter = st["pc"]; prot.family_counter = st["fc"]
+            if up["rng"] == "setter":
+                sh["rng"] = Pool(st["pool"]); prot.rng = sh["rng"]
+            else:                                            # the same generator object goes on with the next script
+                sh["rng"].pool = st["pool"]; sh["rng"].pos = 0
+        o = _run_proto(st, sh)
+        o["pc_before"] = None
+        outs.append(o)
+    return {"steps": outs}
+
+def _run_audit(case):
+    """entry points of the anchored modules, by introspection"""
+    import importlib, inspect, pkgutil
+    out = {"modules": {}, "classes": {}}
+    pkg = importlib.import_module("pybrops.breed.prot.mate")
+    out["package"] = sorted(m.name for m in pkgutil.iter_modules(pkg.__path__))
+    for name in ["pybrops.breed.prot.mate." + m for m in out["package"]] + ["pybrops.core.util.mate"]:
+        mod = importlib.import_module(name)
+        pub = {}
+        for n, o in vars(mod).items():
+            if n.startswith("_") or getattr(o, "__module__", None) != name: continue
+            if inspect.isclass(o): pub[n] = "class"
+            elif inspect.isfunction(o): pub[n] = "function(%s)" % ",".join(inspect.signature(o).parameters)
+        out["modules"][name] = pub
+        for n, kind in pub.items():
+            if kind == "class":
+                o = getattr(mod, n)
+                own = sorted(k for k in vars(o) if not k.startswith("_"))
+                sig = {}
+                for meth in ("__init__", "mate"):
+                    if meth in vars(o): sig[meth] = list(inspect.signature(vars(o)[meth]).parameters)
+                out["classes"][n] = {"own": own, "sig": sig, "bases": [b.__name__ for b in o.__mro__[1:-1]]}
     return out
 
 def _rle(a):
@@ -416,12 +623,17 @@ def _run_util(case):
         a = [_snap(geno), _snap(xo), _snap(sel)]
     out = {"dtype": str(res.dtype), "shape": list(res.shape), "shapes": rng.shapes,
            "ranges_ok": all(r == [0.0, 1.0] for r in rng.ranges), "unchanged": a == b}
+    out["alias"] = {"in": _shares(res, geno) or (case["fn"] == "mate" and _shares(res, geno2)) or _shares(res, xo) or _shares(res, sel),
+                    "phases": bool(case["fn"] != "meiosis" and res.shape[0] >= 2 and _shares(res[0], res[1])), "readonly": not res.flags.writeable}
     if case.get("big"): out["rle"], out["nseg"] = _rle(res)
     else: out["res"] = res.tolist()
     return out
 
 def run_impl(case):
-    return _run_proto(case) if case["kind"] == "proto" else _run_util(case)
+    if case["kind"] == "proto": return _run_proto(case)
+    if case["kind"] == "session": return _run_session(case)
+    if case["kind"] == "audit": return _run_audit(case)
+    return _run_util(case)
 
 # ------------------------------------------------------------------ emission
 def _zl(xs): return "[" + ";".join(("(%d)" % x) if x < 0 else "%d" % x for x in xs) + "]"
@@ -463,15 +675,24 @@ def _consumed(pool, shapes):
         n += k
     return pool[:n]
 
+def _xo_term(case):
+    if "xoprob_f" in case: return E.lst(case["xoprob_f"], lambda v: E.q(Fraction(float(v))))
+    return "(q10l %s)" % Zl(case["xoprob"])
+
 def emit_case(case, out):
-    if case.get("big"):
-        return None                                      # size-dependent paths: predicate only
+    if case.get("big") or case["kind"] == "audit":
+        return None                                      # size-dependent paths / introspection: predicate only
     if "exc" in out:
         return "false"
+    if case["kind"] == "session":
+        terms = [emit_case(st, o) for st, o in zip(case["steps"], out["steps"])]
+        if len(out["steps"]) != len(case["steps"]): return "false"
+        terms = [t for t in terms if t is not None]
+        return "(" + " && ".join(terms) + ")%bool" if terms else None
     if case["kind"] == "util":
         if any(len(sh) != 2 for sh in out["shapes"]): return "false"
         P = "(q10l %s)" % Zl(_consumed(case["pool"], out["shapes"]))
-        G, S, X = Zl3(case["geno"]), Nl(case["sel"]), "(q10l %s)" % Zl(case["xoprob"])
+        G, S, X = Zl3(case["geno"]), Nl(case["sel"]), _xo_term(case)
         I = "(nz_shapes %s)" % _shapes(out["shapes"])
         if case["fn"] == "meiosis":
             return ("(let sh := reqs (snd (mat_meiosis %s %s %s (rng0 []))) in let r0 := rng0 (carve %s sh) in let m := mat_meiosis %s %s %s r0 in "
@@ -492,7 +713,7 @@ def emit_case(case, out):
         xoq = E.lst(case["xoprob_f"], Q); pq = E.lst([u for m in out["drawn"] for r in m for u in r], Q)
     else:
         if any(len(sh) != 2 for sh in out["shapes"]): return "false"
-        xoq = "(q10l %s)" % Zl(case["xoprob"]); pq = "(q10l %s)" % Zl(_consumed(case["pool"], out["shapes"]))
+        xoq = _xo_term(case); pq = "(q10l %s)" % Zl(_consumed(case["pool"], out["shapes"]))
     call = ("(mate_pool %s %s %s %s %s %s %s %d%%nat %s %s %s)"
             % (COQP[case["proto"]], Zl3(case["geno"]), xoq, _meta_term(out["meta_in"]),
                Nl2(xc) if xc else "[]", _count(case["nmating"]), _count(case["nprogeny"]), case["nself"], E.z(case["pc"]), E.z(case["fc"]), pq))
@@ -586,7 +807,7 @@ def _rep(xs, cs): return [x for x, c in zip(xs, cs) for _ in range(c)]
 
 def _reference(case):
     """expected progeny (before grouping) from the pedigree specification and the scripted draws"""
-    proto = case["proto"]; xo = case["xoprob"]; xc = case["xconfig"]; nm, np_ = _counts(case); nself = case["nself"]
+    proto = case["proto"]; xo = _xo_num(case); xc = case["xconfig"]; nm, np_ = _counts(case); nself = case["nself"]
     geno = case["geno"]; n = len(geno[0]); pos = [0]; pool = case["pool"]
     def take(k):
         v = pool[pos[0]:pos[0] + k]; pos[0] += k
@@ -708,6 +929,50 @@ def _pred_proto(case, out):
             bad.append("marker metadata %s not carried over (%s -> %s)" % (k, str(out["meta_in"][k])[:40], str(out["meta"][k])[:40]))
     if out["unchanged"]: bad.append("input pgmat modified: %s" % out["unchanged"])
     if not out["args_unchanged"]: bad.append("xconfig/nmating/nprogeny arrays modified")
+    if out.get("decoy_used"): bad.append("draws were requested from a generator that had been replaced through the rng setter")
+    al = out.get("alias") or {}
+    if al.get("mat_in"): bad.append("progeny matrix shares memory with the parental matrix")
+    if al.get("phases"): bad.append("the two chromosome copies of the progeny matrix share memory")
+    if al.get("readonly"): bad.append("progeny matrix is read-only")
+    if al.get("args"): bad.append("a progeny array shares memory with xconfig/nmating/nprogeny")
+    if al.get("reached") or al.get("write_error"):
+        bad.append("writing into the progeny matrix/labels reached the inputs: %s %s" % (al.get("reached"), al.get("write_error", "")))
+    return bad
+
+EXPECT_PACKAGE = sorted(PROTOS + ["MatingProtocol", "util"])
+EXPECT_FUNCS = {"pybrops.breed.prot.mate.util": {"mat_meiosis": "function(geno,sel,xoprob,rng)", "mat_dh": "function(geno,sel,xoprob,rng)",
+                                                 "mat_mate": "function(fgeno,mgeno,fsel,msel,xoprob,rng)"},
+                "pybrops.core.util.mate": {"dense_meiosis": "function(geno,sel,xoprob,rng)", "dense_dh": "function(geno,sel,xoprob,rng)",
+                                           "dense_cross": "function(fgeno,mgeno,fsel,msel,xoprob,rng)"}}
+EXPECT_OWN = ["family_counter", "mate", "nparent", "progeny_counter", "rng"]
+EXPECT_SIG = {"__init__": ["self", "progeny_counter", "family_counter", "rng", "kwargs"],
+              "mate": ["self", "pgmat", "xconfig", "nmating", "nprogeny", "miscout", "nself", "kwargs"]}
+# entry points that exist and are deliberately not driven, with the reason
+SKIPPED = {"MatingProtocol": "abstract interface (mate and nparent are abstract, no code of its own)",
+           "check_is_<Protocol>": "isinstance type guards, not part of the property"}
+
+def _pred_audit(out):
+    """every public class, function and parameter of the anchored modules is either driven by this module or listed in SKIPPED;
+    anything new fails the check until it is classified here"""
+    bad = []
+    if out["package"] != EXPECT_PACKAGE:
+        bad.append("entry-point audit: modules of pybrops.breed.prot.mate are %s, classified are %s" % (out["package"], EXPECT_PACKAGE))
+    for mod, want in EXPECT_FUNCS.items():
+        if out["modules"].get(mod) != want:
+            bad.append("entry-point audit: %s defines %s, classified are %s" % (mod, out["modules"].get(mod), want))
+    for proto in PROTOS:
+        mod = "pybrops.breed.prot.mate." + proto
+        have = out["modules"].get(mod, {})
+        want = {proto: "class", "check_is_" + proto: "function(v,vname)"}
+        if have != want: bad.append("entry-point audit: %s defines %s, classified are %s" % (mod, have, want))
+        c = out["classes"].get(proto)
+        if c is None: continue
+        if c["own"] != EXPECT_OWN: bad.append("entry-point audit: %s has public members %s, classified are %s" % (proto, c["own"], EXPECT_OWN))
+        if c["sig"] != EXPECT_SIG: bad.append("entry-point audit: %s signatures %s, classified are %s" % (proto, c["sig"], EXPECT_SIG))
+        if c["bases"] != ["MatingProtocol"]: bad.append("entry-point audit: %s derives from %s" % (proto, c["bases"]))
+    have = out["modules"].get("pybrops.breed.prot.mate.MatingProtocol", {})
+    if have != {"MatingProtocol": "class", "check_is_MatingProtocol": "function(v,vname)"}:
+        bad.append("entry-point audit: MatingProtocol module defines %s" % have)
     return bad
 
 def _phase_path_ok(g, c0, c1, xopos):
@@ -738,7 +1003,7 @@ def _pred_util(case, out):
             bad.append("uniform requests %s do not add up to (%d, %d)" % (out["shapes"][:4], k, p))
         if not out["ranges_ok"]: bad.append("uniform draws requested outside [0,1)")
         if not out["unchanged"]: bad.append("an input array was modified")
-        return bad
+        return bad + _alias_util(out)
     res = out["res"]; layers = [res] if fn == "meiosis" else res
     srcs = [(case["geno"], case["sel"])] if fn == "meiosis" else ([(case["geno"], case["sel"])] * 2 if fn == "dh" else
                                                                   [(case["geno"], case["sel"]), (case["geno2"], case["sel2"])])
@@ -750,7 +1015,7 @@ def _pred_util(case, out):
             if not _phase_path_ok(layer[i], G[0][s], G[1][s], xopos):
                 bad.append("gamete %d of layer %d is not a mosaic of the two copies of individual %d switching only where xoprob > 0" % (i, li, s)); break
         if fn == "dh" and li == 1: continue
-        ref = _ref_meiosis([(G[0][i], G[1][i]) for i in range(len(G[0]))], S, case["xoprob"], take)
+        ref = _ref_meiosis([(G[0][i], G[1][i]) for i in range(len(G[0]))], S, _xo_num(case), take)
         if layer != ref: bad.append("layer %d differs from the per-marker specification on the same draws" % li)
     if fn == "dh" and res[0] != res[1]: bad.append("doubled haploid not homozygous")
     nreq = 2 if fn == "mate" else 1
@@ -758,12 +1023,26 @@ def _pred_util(case, out):
         bad.append("uniform requests %s, expected %s" % (out["shapes"], [[k, p]] * nreq))
     if not out["ranges_ok"]: bad.append("uniform draws requested outside [0,1)")
     if not out["unchanged"]: bad.append("an input array was modified")
+    bad += _alias_util(out)
+    return bad
+
+def _alias_util(out):
+    al = out.get("alias") or {}; bad = []
+    if al.get("in"): bad.append("the result shares memory with an input array")
+    if al.get("phases"): bad.append("the two chromosome copies of the result share memory")
+    if al.get("readonly"): bad.append("the result is read-only")
     return bad
 
 def pred(case, out):
     if "exc" in out:
         return ["implementation raised %s: %s" % (out["exc"], out["msg"])]
-    bad = _pred_proto(case, out) if case["kind"] == "proto" else _pred_util(case, out)
+    if case["kind"] == "audit": bad = _pred_audit(out)
+    elif case["kind"] == "session":
+        bad = []
+        if len(out["steps"]) != len(case["steps"]): bad.append("session: %d of %d calls ran" % (len(out["steps"]), len(case["steps"])))
+        for k, (st, o) in enumerate(zip(case["steps"], out["steps"])):
+            bad += ["call %d of a session on one protocol object (%s): %s" % (k + 1, st.get("update", "first call"), b) for b in _pred_proto(st, o)]
+    else: bad = _pred_proto(case, out) if case["kind"] == "proto" else _pred_util(case, out)
     seen = []
     for b in bad:
         if b not in seen: seen.append(b)
@@ -784,7 +1063,9 @@ def nontrivial(case, out):
     if case.get("big"):                                  # a crossover fired somewhere: some chromosome has more than one run
         ns = out.get("nseg") or []
         return any(n > 1 for layer in ns for n in (layer if isinstance(layer, list) else [layer]))
-    xo = case["xoprob"]; p = len(xo)
+    if case["kind"] == "audit": return False
+    if case["kind"] == "session": return any(nontrivial(st, o) for st, o in zip(case["steps"], out["steps"]))
+    xo = _xo_num(case); p = len(xo)
     def fired(shapes):
         pos = 0
         for sh in shapes:
@@ -810,9 +1091,16 @@ def _size_bucket(n):
     return "> 2^22" if n > 2 ** 22 else ("2^16..2^22" if n >= 2 ** 16 else "< 2^16")
 
 def describe(case, out):
+    if case["kind"] == "audit": return {"target": "entry-point audit"}
+    if case["kind"] == "session":
+        ups = [st.get("update") for st in case["steps"][1:]]
+        return {"target": "session:" + case["proto"], "calls": len(case["steps"]),
+                "mat_update": "+".join(u["mat"] for u in ups), "xo_update": "+".join(u["xo"] for u in ups),
+                "counters": "+".join(u["counters"] for u in ups), "rng": "+".join(u["rng"] for u in ups)}
     if case["kind"] == "util":
         return {"target": case["module"] + "_" + case["fn"], "rows": min(len(case["sel"]), 9), "markers": min(len(case["xoprob"]), 25),
-                "draws_per_call": _size_bucket(len(case["sel"]) * len(case["xoprob"]))}
+                "draws_per_call": _size_bucket(len(case["sel"]) * len(case["xoprob"])), "tiny_xoprob": "xoprob_f" in case and not case.get("big"),
+                "sel_index": "> 255" if max(case["sel"] or [0]) > 255 else ("> 127" if max(case["sel"] or [0]) > 127 else "<= 127")}
     nm, np_ = _counts(case)
     N = sum(a * b for a, b in zip(nm, np_)) if len(nm) == len(np_) else -1
     rows = max([sum(nm), N] if len(nm) == len(np_) else [0])
@@ -821,13 +1109,18 @@ def describe(case, out):
             "ntaxa": len(case["geno"][0]), "progeny": "0" if N == 0 else ("1-4" if N <= 4 else ("5-12" if N <= 12 else "13+")),
             "counts": ("scalar" if isinstance(case["nmating"], int) else "array") + "/" + ("scalar" if isinstance(case["nprogeny"], int) else "array"),
             "draws": "pcg64" if case.get("real_rng") is not None else "scripted", "raised": "error" in out or "exc" in out,
+            "tiny_xoprob": "xoprob_f" in case and case.get("real_rng") is None, "pgmat_route": case["meta"].get("route", "ctor"),
+            "prot_route": case.get("prot_route", "ctor"), "miscout": bool(case.get("miscout")), "extra_kwargs": bool(case.get("kw")),
+            "parent_index": (lambda m: "> 255" if m > 255 else ("> 127" if m > 127 else "<= 127"))(max([i for r in case["xconfig"] for i in r] or [0])),
+            "progeny_gt_255": N > 255, "markers_gt_255": len(case["xoprob"]) > 255,
+            "meta_shared_with_parents": len((out.get("alias") or {}).get("meta_shared", [])),
             "xoprob_zero": any(x == 0 for x in case["xoprob"]), "xoprob_half": any(x == 512 for x in case["xoprob"]),
             "self_in_row": any(len(set(r)) < len(r) for r in case["xconfig"]) if NPAR[case["proto"]] > 1 else False}
 
 def shrink(case, fails):
     import copy
     cur = copy.deepcopy(case)
-    if cur["kind"] != "proto" or cur.get("big"): return cur      # a size-dependent failure disappears when shrunk
+    if cur["kind"] != "proto" or cur.get("big") or max([i for r in cur["xconfig"] for i in r] or [0]) > 127 or len(cur["xoprob"]) > 255: return cur      # a size-dependent failure disappears when shrunk
     def still(t):
         """still failing, and still not a known finding"""
         try: o = run_impl(t)
@@ -849,3 +1142,10 @@ def shrink(case, fails):
             t = copy.deepcopy(cur); t[k] = v
             if still(t): cur = t; break
     return cur
+
+# ------------------------------------------------------------------ translator hook
+def translate(repo, gen_dir):
+    """regenerate Gen/C01_Kernel.v (meiosis kernel, mat_dh/mat_mate/dense_*, the statements of every protocol's mate(), the metadata
+    hand-over) from the current source; fail closed"""
+    from translate import c01_kernel
+    return [c01_kernel.translate(repo, gen_dir)]
